@@ -17,9 +17,12 @@ class Comp:
     """Component / factory.  Equality class ``k``; hashability is a property of
     the equality class (DESIGN 3.16 generator constraint)."""
 
+    created = []      # every component of the current case (reset per case)
+
     def __init__(self, k, serial, hashable=True):
         self.k, self.serial, self.h = k, serial, hashable
         self.calls = []
+        Comp.created.append(self)
 
     def __eq__(self, o):
         return isinstance(o, Comp) and self.k == o.k
@@ -69,6 +72,7 @@ def run_case(ctx, rng, job):
 
 
 def _run(ctx, rng, big, events):
+    Comp.created = []
     mod = util.fresh_module()
     P = [util.mkiface('P0', module=mod), util.mkiface('P1', module=mod)]
     P.append(util.mkiface('P2', (P[0],), module=mod))
@@ -445,12 +449,15 @@ def _run(ctx, rng, big, events):
                 ctx.violation('subscribers-vs-fresh', dict(where, got=repr(a), fresh=repr(b)))
             # handle(): every applicable handler called exactly as the fresh registry would
             hs = list(fa.subscriptions([providedBy(o) for o in obs], None))
-            for h in hs:
+            for h in Comp.created:
                 del h.calls[:]
             comps.handle(*obs)
-            n_calls = sum(len(h.calls) for h in {id(h): h for h in hs}.values())
-            if n_calls != len(hs):
-                ctx.violation('handle-vs-fresh', dict(where, calls=n_calls, expected=len(hs)))
+            # exactly the applicable live handlers are called, each as often as it is subscribed - and no
+            # component that is not (or no longer) a handler for these objects
+            called = sorted(id(h) for h in Comp.created for _c in h.calls)
+            if called != sorted(id(h) for h in hs):
+                stale = [repr(h) for h in Comp.created if h.calls and not any(h is x for x in hs)]
+                ctx.violation('handle-vs-fresh', dict(where, calls=len(called), expected=len(hs), called_but_not_live=stale[:4]))
         ctx.count('steps')
         ctx.count('steps[%s]' % op)
     if not hashmode:
